@@ -367,7 +367,9 @@ func (s *tdposSchedule) calHisValidators(height int64) ([]string, error) {
 		return nil, err
 	}
 	s.log.Debug("tdpos::CalculateProposers::target height.", "height", height, "targetHeight", targetHeight, "term", term)
-	return s.calTopKNominator(targetHeight)
+	// 该term的候选人集合是在其第一个区块targetHeight产生(CompeteMaster)和被验证(CalOldProposers情况二)时,
+	// 以当时的账本高度targetHeight-1计算的, 历史查询必须取同一高度, 否则恰好落在其间的投票交易会使同一term前后算出不同的候选人
+	return s.calTopKNominator(targetHeight - 1)
 }
 
 // binarySearch 二分法快速查找
